@@ -208,6 +208,20 @@ Definition sie_put (zero : sample) (p : Z) (data : list sample) (st : sie) : opt
   | _ => sie_write zero data (sie_seek zero true p st)
   end.
 
+(* proposed_fixes/C03-6.diff: the "already there" shortcut of _GD_SampIndSeek must not be taken by a write
+   that would leave a gap (a read-mode seek may have put the pointer beyond the last record) *)
+Definition sie_seek_fx (zero : sample) (write : bool) (sample : Z) (st : sie) : sie :=
+  if write && (filepos st =? sample) && (0 <=? cp st) && (cs st + 1 <? sample) then
+    sie_seek zero write sample
+      (mkSie (recs st) (fpos st) (cr st) (cp st) (cs st) (cd st) (cl st) (have_l st) (bof st) (-2))
+  else sie_seek zero write sample st.
+
+Definition sie_put_fx (zero : sample) (p : Z) (data : list sample) (st : sie) : option sie :=
+  match data with
+  | [] => Some st
+  | _ => sie_write zero data (sie_seek_fx zero true p st)
+  end.
+
 (* gd_getdata through the same handle *)
 Definition sie_get (zero : sample) (p : Z) (n : Z) (st : sie) : sie * list sample :=
   sie_read n (sie_seek zero false p st).
